@@ -55,4 +55,14 @@ ClosedFormNu2 == NuOf(ni) = 2 => \A li \in 1..NLEV :
 OneTwoIdentity == \A li \in 1..NLEV, lj \in 1..NLEV : 2 * LevelA(li) - 10000 = LevelA(lj) =>
     /\ DyLe(TQ(NuOf(ni), "one", li)[1], TQ(NuOf(ni), "two", lj)[2])
     /\ DyLe(TQ(NuOf(ni), "two", lj)[1], TQ(NuOf(ni), "one", li)[2])
+\* designed non-integer dof rows lie between the rows of the neighbouring integer dof
+DesignedBracket == (ni = 1) => \A pi \in 1..NDesigned, k \in Kinds2, li \in 1..NLEV :
+    LET nd == DesignedNu(pi)
+        f  == BigToInt(BigDivFloor(nd[1], nd[2]))          \* floor(nu)
+        x  == MagEnc(XRow(pi, k, li))
+        r  == XRow(pi, k, li) IN
+    /\ r.pi = pi /\ r.ki = KindIdx(k) /\ r.li = li
+    /\ r.sg = ZRow(k, li).sg
+    /\ (r.sg # 0) => /\ DyLt(MagEnc(TRow(f + 1, k, li))[2], x[1])
+                     /\ DyLt(x[2], MagEnc(TRow(f, k, li))[1])
 =============================================================================
